@@ -349,6 +349,8 @@ func (a *sparseArrayObject) _defineIdxProperty(idx uint32, desc PropertyDescript
 				return false
 			}
 		}
+		_, wasProp := existing.(*valueProperty)
+		_, isProp := prop.(*valueProperty)
 		if i >= len(a.items) || a.items[i].idx != idx {
 			if a.expand(idx) {
 				a.items = append(a.items, sparseArrayItem{})
@@ -361,13 +363,22 @@ func (a *sparseArrayObject) _defineIdxProperty(idx uint32, desc PropertyDescript
 					a.length = idx + 1
 				}
 			} else {
-				a.val.self.(*arrayObject).values[idx] = prop
+				// switched to the standard array: the new element is counted there
+				ar := a.val.self.(*arrayObject)
+				ar.values[idx] = prop
+				ar.objCount++
+				if isProp {
+					ar.propValueCount++
+				}
+				return ok
 			}
 		} else {
 			a.items[i].value = prop
 		}
-		if _, ok := prop.(*valueProperty); ok {
+		if isProp && !wasProp {
 			a.propValueCount++
+		} else if wasProp && !isProp {
+			a.propValueCount--
 		}
 	}
 	return ok
